@@ -4,6 +4,7 @@ import (
 	"fmt"
 	"math/big"
 	"math/rand"
+	"os"
 	"sort"
 	"time"
 
@@ -255,6 +256,16 @@ func (e *farmEnv) project(ctx sdk.Context) any {
 	}
 }
 
+func (e *farmEnv) withDonated(st any) any {
+	m := chain.CopyM(st.(chain.M))
+	don := chain.M{}
+	for d, v := range e.donated {
+		don[d] = v
+	}
+	m["donated"] = don
+	return m
+}
+
 func (e *farmEnv) coins(m map[string]int64) sdk.Coins {
 	var cs sdk.Coins
 	for _, d := range chain.SortedKeys(m) {
@@ -381,29 +392,27 @@ func (e *farmEnv) runBlock(pending []chain.M, w *chain.TraceWriter) bool {
 		ev["ok"] = r.OK
 		ev["panic"] = r.Panic
 		name := chain.Str(ev, "name")
+		if !r.OK && os.Getenv("VERIF_DEBUG") != "" {
+			fmt.Fprintf(os.Stderr, "rejected %s: %s\n", name, r.Log)
+		}
 		ev["reward"] = e.rewardOf(r, name)
 		st := r.State
 		if st == nil {
 			st = res.BeginState
 		}
 		if name == "Donate" && r.OK {
-			// the projection ran before the donation was accounted: patch it
 			e.donated[chain.Str(ev, "lpt")] += chain.Num(ev, "amt")
-			m := chain.CopyM(st.(chain.M))
-			don := chain.M{}
-			for d, v := range e.donated {
-				don[d] = v
-			}
-			m["donated"] = don
-			st = m
-			// later states of this block are projected with the updated map
 		}
+		// donations are environment actions known to the driver, not to the store:
+		// every logged state carries the driver's running tally
+		st = e.withDonated(st)
 		w.Write(ev, st)
 		e.last = st.(chain.M)
 	}
 	end := farmEvent("EndBlock", "", "", 0)
-	w.Write(end, res.EndState)
-	e.last = res.EndState.(chain.M)
+	endSt := e.withDonated(res.EndState)
+	w.Write(end, endSt)
+	e.last = endSt.(chain.M)
 	return true
 }
 
@@ -504,6 +513,11 @@ func farmRandom(fl *drv.Flags, rng *rand.Rand, w *chain.TraceWriter) {
 		for j := 0; j < n; j++ {
 			u := e.users[rng.Intn(len(e.users))]
 			switch x := rng.Intn(20); {
+			case x == 19 && rng.Intn(3) == 0:
+				// environment action: a plain bank send to the farm module account
+				ev := farmEvent("Donate", u, "", int64(1+rng.Intn(2)))
+				ev["lpt"] = append(append([]string{}, e.rdenoms...), e.lp)[rng.Intn(len(e.rdenoms)+1)]
+				pending = append(pending, ev)
 			case x < 3 && len(ids) < maxPools:
 				ev := farmEvent("CreatePool", u, "", 0)
 				tot, rpb := chain.M{}, chain.M{}
